@@ -102,12 +102,14 @@ Section Model.
   Definition c256_final_internal (c : ctx256) : list N * ctx256 :=
     let c' := c256_pad c in (be32enc_vect (c256_state c'), c').
 
-  (* insecure_memzero(ctx, sizeof(SHA256_CTX)) *)
+  (* an all-zero SHA256_CTX *)
   Definition c256_zero : ctx256 := mk256 (repeat 0 8) 0 (repeat 0 64).
 
-  (* SHA256_Final: digest and the context after the wipe *)
-  Definition c256_final (c : ctx256) : list N * ctx256 :=
-    (fst (c256_final_internal c), c256_zero).
+  (* SHA256_Final: SHA256_Final_internal, then whatever the statements that follow it do to the
+     context.  [wipe] is NOT fixed here: HashRepo.v passes the result of interpreting the statement
+     list regenerated from the body of SHA256_Final (Alg/HashWipe.v). *)
+  Definition c256_final (wipe : ctx256 -> ctx256) (c : ctx256) : list N * ctx256 :=
+    (fst (c256_final_internal c), wipe (snd (c256_final_internal c))).
 
   (* SHA256_Buf *)
   Definition c256_buf_oneshot (m : list N) : list N :=
